@@ -403,8 +403,73 @@ def hier_cases(shape, levels, bases, rng):
                sig=f"spelling|hier|{shape}")
 
 
+_SHADOW = [0]
+
+
+def name_shadow_cases(rng, n):
+    """a string annotation in a base class names a NON-node type of the base's module; a node subclass defined elsewhere
+    (another module, or inside a function) happens to carry that very name: the inherited field keeps the verdict it
+    has in the base (property) -- names in annotations are resolved where the annotation was written"""
+    import sys
+    import types
+    from pyoak.node import ASTNode
+    for _ in range(n):
+        _SHADOW[0] += 1
+        k = _SHADOW[0]
+        tname = rng.choice(["Kind", "Mode", "Tag"]) + str(k)
+        postponed = rng.random() < 0.5
+        target = rng.choice(["enum", "newtype", "alias"])
+        decl = {"enum": f"class {tname}(enum.Enum):\n    A = 1\n    B = 2\n", "newtype": f"{tname} = NewType('{tname}', int)\n",
+                "alias": f"{tname} = int\n"}[target]
+        default = {"enum": f"{tname}.A", "newtype": f"{tname}(1)", "alias": "1"}[target]
+        ann = tname if postponed else f'"{tname}"'
+        opt = "Optional[ASTNode]" if postponed else '"Optional[ASTNode]"'
+        base_src = (("from __future__ import annotations\n" if postponed else "") + "import enum\nfrom dataclasses import dataclass\n"
+                    "from typing import NewType, Optional\nfrom pyoak.node import ASTNode\n" + decl +
+                    f"@dataclass(frozen=True)\nclass ShBase{k}(ASTNode):\n    tag: {ann} = {default}\n    kid: {opt} = None\n")
+        bm = types.ModuleType(f"c11_shadow_base{k}")
+        sys.modules[bm.__name__] = bm
+        fail = None
+        try:
+            exec(compile(base_src, bm.__name__, "exec"), bm.__dict__)
+            base = getattr(bm, f"ShBase{k}")
+            where = rng.choice(["module", "function"])
+            sub_src = f"from dataclasses import dataclass\n@dataclass(frozen=True)\nclass {tname}(ShBase{k}):\n    extra: int = 0\n"
+            sm = types.ModuleType(f"c11_shadow_sub{k}")
+            sys.modules[sm.__name__] = sm
+            sm.__dict__[f"ShBase{k}"] = base
+            if where == "module":
+                exec(compile(sub_src, sm.__name__, "exec"), sm.__dict__)
+                sub = sm.__dict__[tname]
+            else:
+                # as inside a function body: the class lands in a local namespace, not in its module's globals
+                loc: dict = {}
+                exec(compile(sub_src, sm.__name__, "exec"), sm.__dict__, loc)
+                sub = loc[tname]
+            order = [base, sub] if rng.random() < 0.5 else [sub, base]
+            seen = {}
+            for c in order:
+                inst = c()
+                seen[c] = (sorted(f.name for f in c.get_child_fields()),
+                           sorted(f.name for f in c.get_property_fields()), [type(x).__name__ for x in inst.get_child_nodes()])
+            if seen[base][0] != ["kid"] or "tag" not in seen[base][1]:
+                fail = f"base class: child fields {seen[base][0]}, properties {seen[base][1]}"
+            elif seen[sub][0] != ["kid"] or "tag" not in seen[sub][1] or "extra" not in seen[sub][1]:
+                fail = (f"inherited field 'tag' (annotation {ann} -> a non-node {target} of the base's module): in the subclass named "
+                        f"{tname!r} child fields are {seen[sub][0]}, properties {seen[sub][1]} (base: property)")
+        except Exception as e:  # noqa
+            fail = f"{type(e).__name__}: {e}"[:200]
+        finally:
+            sys.modules.pop(bm.__name__, None)
+            sys.modules.pop(f"c11_shadow_sub{k}", None)
+        yield Case("directed:name-shadow", None, None, True,
+                   f"base: tag: {ann} ({target} {tname} of the base module; {'postponed' if postponed else 'string'} annotation); "
+                   f"subclass `class {tname}(ShBase)` defined in another scope", oracle_fail=fail, sig="annot|directed|name-shadow")
+
+
 def cases(rng: random.Random, tier: str):
     quick = tier == "quick"
+    yield from name_shadow_cases(rng, 8 if quick else 120)
     # 1. the shapes the statement names
     sps = all_spellings()
     for i, t in enumerate(NAMED):
